@@ -5,7 +5,7 @@ usage: mkprops.py CXX header.txt imports "Proofs/File:thm1,thm2" ["Proofs/Other:
 import sys, re, os
 V = os.path.dirname(os.path.dirname(os.path.abspath(__file__)))
 cid, header_file, imports = sys.argv[1], sys.argv[2], sys.argv[3]
-out = ['(* ' + open(header_file).read().strip() + ' *)', imports, '']
+out = ['(* ' + open(header_file).read().strip() + ' *)', imports, 'From RecordUpdate Require Import RecordUpdate.', 'Import RecordSetNotations.', '']
 for spec in sys.argv[4:]:
     rel, names = spec.split(':')
     src = open(os.path.join(V, 'coq', 'theories', rel + '.v')).read()
